@@ -1,4 +1,5 @@
 import Pk.Score
+import Pk.ScoreG
 import Pk.ScoreLaws
 import Pk.Inst
 import Mathlib.Algebra.Order.Field.Rat
@@ -53,6 +54,15 @@ theorem cellErr_nonneg (m : Metric) (a b : Rat) : 0 ≤ cellErr m a b := by
   cases m
   · simp only [cellErr]; exact mul_self_nonneg _
   · simp only [cellErr]; split <;> linarith
+  · simp only [cellErr]
+    apply div_nonneg
+    · split <;> linarith
+    · have he : (0 : Rat) < mapeEps := by unfold mapeEps; norm_num
+      have hfl : ∀ s : Rat, 0 ≤ (if s < mapeEps then mapeEps else s) := by
+        intro s; split
+        · exact le_of_lt he
+        · rename_i h; exact le_trans (le_of_lt he) (not_lt.mp h)
+      exact hfl _
 
 theorem sum_nonneg' (l : List Rat) (h : ∀ x ∈ l, 0 ≤ x) : 0 ≤ l.sum := List.sum_nonneg h
 
@@ -193,5 +203,151 @@ theorem C08_multistep_misaligned_witness :
     ∧ scorer (rowFn ratOps) pDemo false true .mse .nan none 1 xDemo = .val 0
     ∧ scorer (rowFn ratOps) pDemo true true .mse .nan none 1 xDemo = .val (-10) := by
   decide +kernel
+
+
+/-! ### the "greater is better" metrics (`'r2'`, `'explained_variance'`): the best attainable score is 1 -/
+theorem wsum_nonneg (w v : List Rat) (hw : ∀ x ∈ w, 0 ≤ x) (hv : ∀ x ∈ v, 0 ≤ x) : 0 ≤ wsum w v := by
+  unfold wsum
+  rw [rsum_eq]
+  apply List.sum_nonneg
+  intro x hx
+  obtain ⟨i, hi, rfl⟩ := List.getElem_of_mem hx
+  simp only [List.getElem_zipWith]
+  exact mul_nonneg (hw _ (List.getElem_mem _)) (hv _ (List.getElem_mem _))
+
+theorem sq_nonneg' (x : Rat) : 0 ≤ sqr x := mul_self_nonneg x
+
+theorem assemble_le_one (num den : Rat) (hn : 0 ≤ num) (hd : 0 ≤ den) : assemble num den ≤ 1 := by
+  unfold assemble
+  split
+  · exact le_refl _
+  · split
+    · exact zero_le_one
+    · have : 0 ≤ num / den := div_nonneg hn hd
+      linarith
+
+theorem colGood_le_one (g : GMetric) (w p e : List Rat) (hw : ∀ x ∈ w, 0 ≤ x) : colGood g w p e ≤ 1 := by
+  have hW : 0 ≤ rsum w := by rw [rsum_eq]; exact List.sum_nonneg hw
+  have hsq : ∀ (l : List Rat) (f : Rat → Rat), ∀ x ∈ l.map (fun y => sqr (f y)), 0 ≤ x := by
+    intro l f x hx
+    simp only [List.mem_map] at hx
+    obtain ⟨y, _, rfl⟩ := hx
+    exact sq_nonneg' _
+  cases g
+  · simp only [colGood]
+    apply assemble_le_one
+    · exact wsum_nonneg _ _ hw (hsq _ id)
+    · exact wsum_nonneg _ _ hw (hsq _ _)
+  · simp only [colGood]
+    apply assemble_le_one
+    · exact div_nonneg (wsum_nonneg _ _ hw (hsq _ _)) hW
+    · exact div_nonneg (wsum_nonneg _ _ hw (hsq _ _)) hW
+
+theorem rsum_le_length (l : List Rat) (h : ∀ x ∈ l, x ≤ 1) : rsum l ≤ (l.length : Rat) := by
+  rw [rsum_eq]
+  induction l with
+  | nil => simp
+  | cons a t ih =>
+    simp only [List.sum_cons, List.length_cons, Nat.cast_add, Nat.cast_one]
+    have := ih (fun x hx => h x (List.mem_cons_of_mem _ hx))
+    have := h a (List.mem_cons_self)
+    linarith
+
+/-- no prediction scores above 1 with `'r2'` / `'explained_variance'` (non-negative weights) … -/
+theorem C08_goodness_le_one (g : GMetric) (w : List Rat) (hw : ∀ x ∈ w, 0 ≤ x) (P E : List (List Rat)) :
+    goodness g w P E ≤ 1 := by
+  unfold goodness
+  simp only []
+  generalize ncolsOf E = ncols
+  have h1 := rsum_le_length ((List.range ncols).map fun j => colGood g w (colOf j P) (colOf j E)) (by
+    intro x hx
+    simp only [List.mem_map] at hx
+    obtain ⟨j, _, rfl⟩ := hx
+    exact colGood_le_one g w _ _ hw)
+  simp only [List.length_map, List.length_range] at h1
+  rcases Nat.eq_zero_or_pos ncols with h0 | hpos
+  · subst h0; simp
+  · have : (0 : Rat) < ncols := by exact_mod_cast hpos
+    rw [div_le_one this]; exact h1
+
+theorem zipWith_sub_self (e : List Rat) : List.zipWith (fun a b => b - a) e e = List.replicate e.length 0 := by
+  induction e with
+  | nil => rfl
+  | cons a t ih => simp [List.replicate_succ]
+
+theorem wsum_zeros (w : List Rat) (n : Nat) : wsum w (List.replicate n 0) = 0 := by
+  unfold wsum
+  rw [rsum_eq]
+  apply List.sum_eq_zero
+  intro x hx
+  obtain ⟨i, hi, rfl⟩ := List.getElem_of_mem hx
+  simp
+
+theorem colGood_self (g : GMetric) (w e : List Rat) : colGood g w e e = 1 := by
+  cases g
+  · simp only [colGood, zipWith_sub_self]
+    have : (List.replicate e.length (0:Rat)).map sqr = List.replicate e.length 0 := by simp [sqr]
+    rw [this, wsum_zeros]; simp [assemble]
+  · simp only [colGood, zipWith_sub_self, wsum_zeros, zero_div, sub_zero]
+    have : (List.replicate e.length (0:Rat)).map (fun x => sqr x) = List.replicate e.length 0 := by simp [sqr]
+    rw [this, wsum_zeros]; simp [assemble]
+
+/-- … and a prediction that reproduces the expected trajectory exactly attains it -/
+theorem C08_goodness_perfect (g : GMetric) (w : List Rat) (r : List Rat) (E : List (List Rat)) (hr : r ≠ []) :
+    goodness g w (r :: E) (r :: E) = 1 := by
+  unfold goodness
+  simp only [colGood_self, ncolsOf]
+  have hlen : r.length ≠ 0 := by simpa using hr
+  have : rsum ((List.range r.length).map fun _ => (1 : Rat)) = (r.length : Rat) := by
+    rw [rsum_eq]; simp
+  rw [this]
+  exact div_self (by exact_mod_cast hlen)
+
+/-- the `error_score` floor and the non-finite branch are the same as for the error metrics -/
+theorem C08_floor_G (g : GMetric) (e : Rat) (ns : Option Nat) (γ : Rat) (m : Nat) (P E : FlatMat Rat) (r : Rat)
+    (h : scoreTrajectoryG true g (.val e) ns γ m P E = .val r) : e ≤ r := by
+  unfold scoreTrajectoryG at h
+  simp only [Bool.not_true, Bool.false_eq_true, if_false] at h
+  split at h
+  · cases h
+  · split at h
+    · cases h
+    · split at h
+      · cases h
+      · split at h
+        · simp only [errOut] at h; injection h with h; rw [← h]
+        · split at h
+          · injection h with h; rw [← h]
+          · rename_i hlt; injection h with h; rw [← h]; exact not_lt.mp hlt
+
+theorem C08_nonfinite_G (g : GMetric) (es : ErrScore) (ns : Option Nat) (γ : Rat) (m : Nat) (P E : FlatMat Rat) :
+    scoreTrajectoryG false g es ns γ m P E = errOut es := by
+  simp [scoreTrajectoryG]
+
+/-- never above the best score, whatever the prediction (valid discount factor) -/
+theorem C08_best_G (g : GMetric) (ns : Option Nat) (γ : Rat) (m : Nat) (P E : FlatMat Rat) (r : Rat)
+    (h : scoreTrajectoryG true g .nan ns γ m P E = .val r) : r ≤ 1 := by
+  unfold scoreTrajectoryG at h
+  simp only [Bool.not_true, Bool.false_eq_true, if_false] at h
+  split at h
+  · cases h
+  · rename_i hγ
+    split at h
+    · cases h
+    · split at h
+      · cases h
+      · split at h
+        · simp [errOut] at h
+        · injection h with h; rw [← h]
+          apply C08_goodness_le_one
+          intro x hx
+          have hγ0 : 0 ≤ γ := by
+            by_contra hc; exact hγ (Or.inl (not_le.mp hc))
+          unfold weightsOf at hx
+          simp only [List.mem_flatMap] at hx
+          obtain ⟨ep, _, hx⟩ := hx
+          exact weights_nonneg ns γ hγ0 _ x hx
+
+example : goodness .r2 [1, 1, 1] [[1, 2], [3, 2], [4, 3]] [[1, 2], [2, 2], [4, 2]] = 11/28 := by decide +kernel
 
 end Pk.C08
